@@ -9,7 +9,7 @@ use crate::CompilerPass;
 
 use std::{
     cell::RefCell,
-    collections::HashMap,
+    collections::{HashMap, HashSet},
     path::{Path, PathBuf},
     rc::Rc,
 };
@@ -28,6 +28,7 @@ pub struct IDLStore {
     current: Option<PathBuf>,
     cycle: Option<Cycle<String>>,
     graph: Graph<String>,
+    walked: HashSet<PathBuf>,
     include_paths: Vec<PathBuf>,
     allow_undefined_behavior: bool,
 }
@@ -57,7 +58,13 @@ impl Visitor<'_> for IDLStore {
         }
 
         let inc_ast = self.get_or_insert(&cano_path);
-        walk_all(self, &inc_ast);
+        // The includes of a file that has been walked before are in the graph
+        // already (and the cycle check above has just ruled out that it is still
+        // being walked).  Walking it again for every path that reaches it makes
+        // the pass exponential in the depth of diamond-shaped include graphs.
+        if self.walked.insert(cano_path) {
+            walk_all(self, &inc_ast);
+        }
         self.current = Some(current);
     }
 }
@@ -80,6 +87,7 @@ impl IDLStore {
             current: None,
             cycle: None,
             graph: Graph::new(),
+            walked: HashSet::new(),
             include_paths: include_paths.to_vec(),
             allow_undefined_behavior,
         }
